@@ -854,7 +854,8 @@ def _wait_ready_part(e: Engine, rep: Report, due_kind):
     # _wait_ready
     ctx = e.method_ctx(QUEUE, '_wait_ready')
     g = e.build(ctx, raises=lambda b, n, r: {'builtins.IndexError'}
-                if False else set())
+                if False else set(), inline=common.queue_inline(e),
+                max_depth=3)
     fx = e.facts(g)
     where = ctx.func.qname
     rep.functions.add(where)
@@ -869,10 +870,26 @@ def _wait_ready_part(e: Engine, rep: Report, due_kind):
     # reaches the wait is one case, judged where it is made
     cases = []
     for n in waits:
-        if not (n.ast.args or n.ast.keywords):
+        eff = list(n.ast.args)
+        aframe = n.frame
+        if len(eff) == 1 and isinstance(eff[0], ast.Starred) and \
+                isinstance(eff[0].value, ast.Name) and \
+                n.frame.ctx.func.vararg == eff[0].value.id and \
+                n.frame.star_args is not None:
+            # wait(*timeout) in a helper: what the helper was given
+            sa = n.frame.star_args
+            eff = [x for x, _f in sa]
+            aframe = sa[0][1] if sa else n.frame
+        if not (eff or n.ast.keywords):
             cases.append((n, None, n))
             continue
-        a = n.ast.args[0] if n.ast.args else n.ast.keywords[0].value
+        a = eff[0] if eff else n.ast.keywords[0].value
+        if aframe is not n.frame:
+            # judged where the duration was computed: the helper's call
+            call_site = [c for c in g.of_kind('call_enter')
+                         if c.extra.get('callee_frame') is n.frame]
+            cases.append((n, a, call_site[0] if call_site else n))
+            continue
         ap = path_of(a, n.frame) if isinstance(a, ast.Name) else None
         defs = common.reaching_defs(g, n, ap) if ap else []
         if ap and defs and all(
